@@ -3,7 +3,7 @@
     by gen/gen_vmguard on every run (the VM cannot be built or run here: the tie is the translator). *)
 From Coq Require Import List Bool String.
 From Coq Require Import ZArith.
-From Verif Require Import VmGuard.Lang VmGuard.Analysis VmGuard.Balance VmGuard.CSide VmGuard.Reviewed Gen.Callbacks Gen.CCallbacks.
+From Verif Require Import VmGuard.Lang VmGuard.Analysis VmGuard.Balance VmGuard.Slots VmGuard.CSide VmGuard.Reviewed Gen.Callbacks Gen.CCallbacks Gen.Slots.
 Import ListNotations.
 
 (** The analyser is sound for every program, callback list and iteration bound (it verifies that
@@ -119,6 +119,51 @@ Proof.
   exact (C20_readonly_no_mutation_c_side cb e t o' Hcb Hg Hex m k e0 Hm).
 Qed.
 Print Assumptions C20_view_function_readonly.
+
+(* ------------------------------------------------------------------------------------------
+   The context-slot discipline: each running Lua state's callbacks see its own context. *)
+Open Scope nat_scope.
+
+(** The source's constants, initialisation and store statement are the ones the model
+    (VmGuard/Slots.v) is instantiated with, and every store into the context table, every write
+    of a service field and every use of the service constants is a reviewed one. *)
+Theorem C20_slot_sites_reviewed :
+  slots_config_ok Gen.Slots.slot_constants Gen.Slots.init_last_query_index Gen.Slots.init_context_arg
+                  Gen.Slots.tx_store_stmt Gen.Slots.init_context_base Gen.Slots.slot_loads_by_service = true /\
+  slot_sites_ok Gen.Slots.slot_sites Gen.Slots.slot_constant_uses = true.
+Proof. vm_compute. split; reflexivity. Qed.
+Print Assumptions C20_slot_sites_reviewed.
+
+(** a node with [w] >= 1 chain workers: maxContext = w + 2, first query slot = ChainService + 1 *)
+Definition node_cfg (w : nat) : cfg :=
+  mkCfg (w + Gen.Slots.init_context_base) (nat_of "ChainService" Gen.Slots.slot_constants + 1).
+Lemma node_cfg_wf : forall w, 1 <= w -> wf (node_cfg w).
+Proof. intros w Hw. unfold wf, node_cfg. simpl. vm_compute nat_of. vm_compute init_context_base. split; [|apply Nat.lt_add_pos_l]; auto. Qed.
+Print Assumptions node_cfg_wf.
+
+(** For every number of workers and every history of query allocations, releases and transaction
+    stores since the node started: a live query (or fee-delegation check) holds a slot above
+    ChainService -- never a slot in which transactions are executed. *)
+Theorem C20_alloc_never_returns_reserved_slot : forall w h q j, 1 <= w ->
+  In (q, j) (live (reached (node_cfg w) h)) -> nat_of "ChainService" Gen.Slots.slot_constants < j /\ j < w + 2.
+Proof.
+  intros w h q j Hw Hin. destruct (alloc_never_returns_reserved_slot _ h q j (node_cfg_wf w Hw) Hin) as [A B].
+  unfold node_cfg in A, B. simpl in A, B. vm_compute nat_of in *. vm_compute init_context_base in *. split; [apply A | exact B].
+Qed.
+Print Assumptions C20_alloc_never_returns_reserved_slot.
+
+Theorem C20_distinct_live_contexts_distinct_slots : forall w h q1 q2 j1 j2, 1 <= w ->
+  In (q1, j1) (live (reached (node_cfg w) h)) -> In (q2, j2) (live (reached (node_cfg w) h)) -> q1 <> q2 -> j1 <> j2.
+Proof. intros w h q1 q2 j1 j2 Hw. exact (distinct_live_contexts_distinct_slots _ h q1 q2 j1 j2 (node_cfg_wf w Hw)). Qed.
+Print Assumptions C20_distinct_live_contexts_distinct_slots.
+
+(** Hence [contexts[service]], evaluated by a callback of a live query at any later time --
+    whatever transactions the chain service or the block factory stored meanwhile -- is that
+    query's own context (isQuery = true): the guards are evaluated on the right flags. *)
+Theorem C20_callbacks_see_own_context : forall w h q j, 1 <= w ->
+  In (q, j) (live (reached (node_cfg w) h)) -> occ (reached (node_cfg w) h) j = Some (Q q).
+Proof. intros w h q j Hw. exact (callbacks_see_own_context _ h q j (node_cfg_wf w Hw)). Qed.
+Print Assumptions C20_callbacks_see_own_context.
 
 (** F13 (known finding, fork version 4 only): the theorems above carry the hypothesis
     [good e] = read-only and (amount >= 0 or fork version >= 5).  Without it the check finds, on
